@@ -9,7 +9,8 @@ G: every state of these runs is dumped: diagnostic class (catalogue of 92 classe
    untrusted / availability errors inside ${{ }} and bare `if:` conditions, unknown / duplicate keys, value errors
    of ids, shell names, permissions, runner labels, cron, events, matrix, needs, actions ..., characters of filter
    patterns) x placement (slot, quoting, block / flow, indentation unit, sequence indentation, nesting depth,
-   prefix length, earlier placeholders, blanks, k inserted blanks, k inserted lines, `---`) with the abstract
+   prefix length, earlier placeholders, blanks after `${{`, blanks at the start / inside / at the end of a quoted
+   scalar, negated `!pattern` form of filter patterns, k inserted blanks, k inserted lines, `---`) with the abstract
    document and the predicted (line, col).  The harness renders the document with the general renderer
    (render.go, compared node by node with yaml.v3; token position, quoting, line text and line count must agree
    with the layout TLC computed, otherwise the check is inconclusive), runs the real Linter.Lint and the
@@ -53,7 +54,7 @@ SLOT_SITE = {'ifb': 'if-cond-bare', 'ifw': 'if-cond-wrapped', 'matrix': 'matrix-
              'matrixdup2': 'matrix-value'}      # site = code path: both matrix slots go through checkRawYAMLString
 
 # parameters that only put something in front of / above the construct
-SHIFT_PARAMS = ('gap', 'kl', 'plen', 'ind', 'seqind', 'docstart')
+SHIFT_PARAMS = ('gap', 'kl', 'plen', 'ind', 'seqind', 'docstart', 'pad', 'neg')
 
 
 def site_of(v):
